@@ -46,12 +46,15 @@ inline const char* cat_name(int c) {
                             "create", "severity", "passed-predecessor"};
   return n[c];
 }
-// After a mismatch of these categories the case ends: the real objects and the model may no longer agree on what is
-// alive. A wrong is_satisfied()/is_saturated() answer (CAT_FLAGS) is a pure observation; the case goes on, so that a
-// check whose property does not speak about the flags still sees what the same defect does to its own observables
-// (e.g. a lost lower bound: wrong flag at once - C03 - and no shortfall report at the end of life - C04).
+// After a mismatch of these categories the case ends: from there on the model no longer describes the real objects, and
+// what follows would be blamed on properties that hold (a wrong handler - C02 - makes counts, flags and end-of-life
+// reports differ without C03/C04 being broken). Two exceptions, where the case goes on (Interp::keep_going) because the
+// divergence itself is what the other properties are about: (1) a wrong is_satisfied()/is_saturated() answer for an
+// expectation that has not been offered a single call yet - its bounds were lost, not its count (C03 sees the flag,
+// C04 the missing shortfall report later); (2) reports emitted by a *move* of a sequence object - the pending steps
+// were dropped, which C05 sees as calls accepted out of order afterwards.
 inline bool cat_state_affecting(int c) {
-  return c == CAT_OUTCOME || c == CAT_COMPLETED || c == CAT_CALL_REPORTS || c == CAT_EOL_REPORTS ||
+  return c == CAT_OUTCOME || c == CAT_FLAGS || c == CAT_COMPLETED || c == CAT_CALL_REPORTS || c == CAT_EOL_REPORTS ||
          c == CAT_SEQ_DESTROY || c == CAT_DW || c == CAT_CLAUSES || c == CAT_CREATE || c == CAT_PASSED;
 }
 
@@ -98,8 +101,10 @@ class Interp {
   void mismatch(int cat, const std::string& msg) {
     uint32_t mask = cat_mask(cat) & (res.case_mask | C01 | C02 | C03 | C04 | C08 | C15 | C16);
     res.mismatches.push_back(Mismatch{cat, mask, cur, msg});
-    if (cat_state_affecting(cat)) stop = true;
+    if (cat_state_affecting(cat) && !keep_going) stop = true;
   }
+  bool keep_going = false;            // see cat_state_affecting
+  std::set<int> bounds_suspect;       // expectations whose flags were wrong before any call was offered to them
 
   // ---- location lookup ------------------------------------------------------------------
   int pre_slot_eid[NALL];
@@ -294,6 +299,8 @@ class Interp {
   }
 
   void compare_reports(const Op& o, const Expect& x) {
+    struct KG { bool& k; ~KG() { k = false; } } kg{keep_going};
+    keep_going = o.kind == O_MOVE_SEQ;
     int cat = CAT_EOL_REPORTS;
     if (o.kind == O_CALL) cat = CAT_CALL_REPORTS;
     else if (o.kind == O_DESTROY_SEQ || o.kind == O_MOVE_SEQ) cat = CAT_SEQ_DESTROY;
@@ -369,7 +376,6 @@ class Interp {
   }
 
   void sweep(const Op& o) {
-    (void)o;
     for (int s = 0; s < NSLOT + NLIT; ++s) {
       if (m.slot_eid[s] < 0) continue;
       const MExp& e = m.E.at(m.slot_eid[s]);
@@ -380,8 +386,12 @@ class Interp {
         if (lf != last_flags.end() && lf->second != fl) res.flag_flips++;
         last_flags[e.s.eid] = fl;
       }
+      bool fresh = (o.kind == O_CREATE && e.s.eid == m.next_eid - 1 && e.count == 0) || bounds_suspect.count(e.s.eid) != 0;
+      if (fresh && (sat != e.satisfied() || satu != e.is_saturated())) bounds_suspect.insert(e.s.eid);
+      keep_going = fresh;
       if (sat != e.satisfied() || satu != e.is_saturated())
         mismatch(CAT_FLAGS, "expectation " + std::to_string(e.s.eid) + " (slot " + std::to_string(s) + ", [" + std::to_string(e.s.lo) + "," + std::to_string(e.s.hi) + "], model count " + std::to_string(e.count) + "): is_satisfied=" + std::to_string(sat) + " is_saturated=" + std::to_string(satu) + " model " + std::to_string(e.satisfied()) + "/" + std::to_string(e.is_saturated()));
+      keep_going = false;
     }
     for (int d = 0; d < NDW; ++d) for (int k = 0; k < NMON; ++k) {
       if (m.mon_eid[d][k] < 0) continue;
